@@ -38,8 +38,8 @@ ROWS = {
  "misc_quick": dict(acts=S("CvCopy", "CvFraction"), maxnpts=4),
  "deriv_quick": dict(acts=S("CvDerivate"), props=["DerivFormulaAgrees"]),
  "deriv_thorough": dict(acts=S("CvDerivate"), props=["DerivFormulaAgrees"], degs="Degs4", maxnpts=7, wts='"none", "gen", "gen2"'),
- "integ_quick": dict(acts=S("CvIntegrate"), props=["IntegralAgrees"], wts='"none"'),
- "integ_thorough": dict(acts=S("CvIntegrate"), props=["IntegralAgrees"], wts='"none"', degs="Degs4", maxnpts=8, pts='"gen", "unit"'),
+ "integ_quick": dict(acts=S("CvIntegrate", "IntegrateFn"), props=["IntegralAgrees"], wts='"none"'),
+ "integ_thorough": dict(acts=S("CvIntegrate", "IntegrateFn"), props=["IntegralAgrees"], wts='"none"', degs="Degs4", maxnpts=8, pts='"gen", "unit"'),
  "fitcurve_quick": dict(acts=S("CvFitCurve"), wts='"none"', pts='"pos"', maxnpts=4, omax=4),
  "fitcurve_thorough": dict(acts=S("CvFitCurve"), wts='"none"', pts='"pos"', maxnpts=5, omax=5, degs="DegsT", odegs="DegsT"),
  "fitpoints_quick": dict(acts=S("CvFitPoints", "CvFitFunction"), pts='"pos"', maxnpts=4),
@@ -80,6 +80,7 @@ MISC = {
  "gen_thorough": dict(acts=S("KvGen"), maxp=5, extra=6, memon=2, rich="FALSE", depth=1, props=["GenProps"]),
  "memo_quick": dict(acts=S("MemoRequest"), maxp=1, extra=1, memon=4, rich="FALSE", depth=2, props=["MemoMonotone"]),
  "memo_thorough": dict(acts=S("MemoRequest"), maxp=1, extra=1, memon=5, rich="FALSE", depth=3, props=["MemoMonotone"]),
+ "length_quick": dict(acts=S("GeoLength"), maxp=1, extra=1, memon=2, rich="TRUE", depth=1, props=[]),
  "project_quick": dict(acts=S("GeoProject"), maxp=1, extra=1, memon=2, rich="FALSE", depth=1, props=[]),
  "project_thorough": dict(acts=S("GeoProject"), maxp=1, extra=1, memon=2, rich="TRUE", depth=1, props=[]),
  "intersect_quick": dict(acts=S("GeoIntersect"), maxp=1, extra=1, memon=2, rich="FALSE", depth=1, props=[]),
